@@ -22,6 +22,7 @@ MODULES = {
     "vk_fat": "fat/volume.rs",
     "vk_sd": "sdcard/mod.rs",
     "vk_fsop": "volume_mgr.rs",
+    "vk_fatx": "fat/mod.rs",
 }
 # harness module -> rust path of the module
 MODPATH = {
@@ -36,6 +37,7 @@ MODPATH = {
     "vk_fat": "fat::volume::vk_fat",
     "vk_sd": "sdcard::vk_sd",
     "vk_fsop": "volume_mgr::vk_fsop",
+    "vk_fatx": "fat::vk_fatx",
 }
 
 
@@ -305,11 +307,11 @@ UW_DIR = [("memcmp", r".", 12),
           ("find_entry_in_block|delete_entry_in_block", r".", 17),
           ("FatVolume::find_directory_entry|FatVolume::delete_directory_entry|FatVolume::iterate_fat", r"chunks_exact", 17),
           ("FatVolume::find_directory_entry|FatVolume::delete_directory_entry|FatVolume::iterate_fat", r".", 3),
-          ("FatVolume::write_new_directory_entry", r"chunks_exact", 17),
+          ("FatVolume::write_new_directory_entry", r"chunks_exact|dir_entry_bytes", 17),
           ("FatVolume::write_new_directory_entry", r".", 3)]
 PROPS["C03"] = dict(bounds="(in progress)", outside="")
 PROPS["C02"] = dict(bounds="(in progress)", outside="")
-H("C03", "vk_fat", "c03_new_entry_root16", desc="write_new_directory_entry: first free slot gets exactly the new entry, other bytes preserved, only the root block written; full root => NotEnoughSpace, nothing written", bounds="FAT16 root: slots 0-3 and 15 fully symbolic, 4-14 live; name/attr/clock symbolic", unwindset=UW_DIR, timeout=2400, cost=4, mem_gb=30)
+H("C03", "vk_fat", "c03_new_entry_root16", desc="write_new_directory_entry: first free slot gets exactly the new entry, other bytes preserved, only the root block written; full root => NotEnoughSpace, nothing written", bounds="FAT16 root: first byte of slots 0-3 and 15 symbolic (free/deleted/live), rest concrete; attributes symbolic", unwindset=UW_DIR, timeout=2400, cost=4, mem_gb=30)
 H("C03", "vk_fat", "c03_delete_entry_root16", desc="delete_directory_entry: first matching slot marked 0xE5, nothing else changes; NotFound writes nothing", bounds="FAT16 root fully symbolic, name symbolic", timeout=1500, cost=3, mem_gb=20)
 H("C02", "vk_fat", "c02_write_entry_fat16_s0", desc="write_entry_to_disk (flush/close): owned slot == FAT layout of the entry, rest of block preserved", bounds="block and entry fully symbolic, slot 0", timeout=1500, cost=3, mem_gb=20)
 H("C02", "vk_fat", "c02_write_entry_fat16_s15", tier="thorough", desc="same, slot 15", bounds="block and entry fully symbolic", timeout=1500, cost=3, mem_gb=20)
@@ -318,7 +320,7 @@ UW_TRUNC = [("truncate_cluster_chain", r".", 6)]
 H("C16", "vk_fat", "c16_update_info_sector", desc="update_info_sector writes count/hint at 488..496, preserves the rest, unknown stays as found", bounds="info sector fully symbolic, record symbolic")
 UW_TRUNC3 = [("truncate_cluster_chain", r".", 3)]
 for n in ["c16_truncate16_chain2"]:
-    H("C16", "vk_fat", n, tier="thorough", desc="truncate_cluster_chain: kept cluster EOC, tail free, frame, free count += clusters freed, hint sane", bounds="concrete chain, record symbolic", unwindset=UW_TRUNC3, timeout=1500, cost=3, mem_gb=30)
+    H("C16", "vk_fat", n, tier="thorough", cbmc_args=["--max-field-sensitivity-array-size", "512"], desc="truncate_cluster_chain: kept cluster EOC, tail free, frame, free count += clusters freed, hint sane", bounds="concrete chain, record symbolic", unwindset=UW_TRUNC3, timeout=1500, cost=3, mem_gb=30)
 for n in ["c16_truncate16_chain1", "c16_truncate16_chain4", "c16_truncate16_chain3"]:
     H("C16", "vk_fat", n, tier="thorough", desc="truncate_cluster_chain on 1- and 4-cluster chains", bounds="concrete chain, record symbolic", unwindset=UW_TRUNC, timeout=1500, cost=3, mem_gb=20)
 
@@ -335,47 +337,54 @@ for n, t, p in [("c01_write_middle", "quick", "C01"), ("c01_write_block_start_pa
              ("c01_write_extend_two", "thorough", "C01"), ("c01_write_backward_chain", "thorough", "C01"), ("c01_write_empty_buffer", "thorough", "C01"),
              ("c05_write_last_free_cluster", "thorough", "C05"), ("c05_write_disk_full_partial", "thorough", "C05"), ("c05_write_disk_full_none", "thorough", "C05"),
              ("c07_write_readonly_refused", "quick", "C07")]:
-    H(p, "vk_fsop", n, tier=t, desc=_wr, bounds="payload (<=600 B), old file contents and root block fully symbolic; chain/size/offset/cursor/length/free map concrete per instance", unwindset=UW_ALLOC, timeout=2400, cost=4, mem_gb=30)
+    H(p, "vk_fsop", n, tier=t, desc=_wr, bounds="payload (<=600 B), old file contents and root block fully symbolic; chain/size/offset/cursor/length/free map concrete per instance; alloc_cluster replaced by the abstract allocator stub (contract = C05 allocator harnesses)", kani_args=["-Z", "stubbing"], unwindset=UW_ALLOC, timeout=2400, cost=4, mem_gb=30)
 PROPS["C07"] = dict(bounds="(in progress)", outside="")
 
 UW_DIR = [("memcmp", r".", 12),
           ("find_entry_in_block|delete_entry_in_block", r".", 17),
           ("FatVolume::find_directory_entry|FatVolume::delete_directory_entry|FatVolume::iterate_fat", r"chunks_exact", 17),
           ("FatVolume::find_directory_entry|FatVolume::delete_directory_entry|FatVolume::iterate_fat", r".", 3),
-          ("FatVolume::write_new_directory_entry", r"chunks_exact", 17),
+          ("FatVolume::write_new_directory_entry", r"chunks_exact|dir_entry_bytes", 17),
           ("FatVolume::write_new_directory_entry", r".", 3)]
 UW_OPEN = UW_ALLOC + UW_TRUNC + UW_DIR
+UW_DIR6 = [("memcmp", r".", 12),
+           ("find_entry_in_block|delete_entry_in_block", r".", 6),
+           ("FatVolume::find_directory_entry|FatVolume::delete_directory_entry|FatVolume::iterate_fat", r"chunks_exact", 6),
+           ("FatVolume::find_directory_entry|FatVolume::delete_directory_entry|FatVolume::iterate_fat", r".", 3),
+           ("FatVolume::write_new_directory_entry", r"chunks_exact|dir_entry_bytes", 6),
+           ("FatVolume::write_new_directory_entry", r".", 3)]
+UW_OPEN6 = UW_ALLOC + UW_TRUNC + UW_DIR6
 _od = "open_file_in_dir result == documented mode matrix for this (target, mode); refused calls write nothing and leave the tables unchanged; truncate empties and frees the tail; append starts at the end; created file empty in the first free slot; fresh handle"
-H("C07", "vk_fsop", "c07_open_a_ro", desc=_od, bounds="target A, mode ro", unwindset=UW_OPEN, timeout=1500, cost=3, mem_gb=20)
-H("C07", "vk_fsop", "c07_open_a_append", desc=_od, bounds="target A, mode append", unwindset=UW_OPEN, timeout=1500, cost=3, mem_gb=20)
-H("C07", "vk_fsop", "c07_open_a_trunc", tier="thorough", desc=_od, bounds="target A, mode trunc", unwindset=UW_OPEN, timeout=3600, cost=3, mem_gb=40)
-H("C07", "vk_fsop", "c07_open_a_create", desc=_od, bounds="target A, mode create", unwindset=UW_OPEN, timeout=1500, cost=3, mem_gb=20)
-H("C07", "vk_fsop", "c07_open_a_create_or_trunc", tier="thorough", desc=_od, bounds="target A, mode create_or_trunc", unwindset=UW_OPEN, timeout=3600, cost=3, mem_gb=40)
-H("C07", "vk_fsop", "c07_open_a_create_or_append", desc=_od, bounds="target A, mode create_or_append", unwindset=UW_OPEN, timeout=1500, cost=3, mem_gb=20)
-H("C07", "vk_fsop", "c07_open_r_ro", desc=_od, bounds="target R, mode ro", unwindset=UW_OPEN, timeout=1500, cost=3, mem_gb=20)
-H("C07", "vk_fsop", "c07_open_r_append", desc=_od, bounds="target R, mode append", unwindset=UW_OPEN, timeout=1500, cost=3, mem_gb=20)
-H("C07", "vk_fsop", "c07_open_r_trunc", tier="thorough", desc=_od, bounds="target R, mode trunc", unwindset=UW_OPEN, timeout=1500, cost=3, mem_gb=20)
-H("C07", "vk_fsop", "c07_open_r_create", tier="thorough", desc=_od, bounds="target R, mode create", unwindset=UW_OPEN, timeout=1500, cost=3, mem_gb=20)
-H("C07", "vk_fsop", "c07_open_r_create_or_trunc", desc=_od, bounds="target R, mode create_or_trunc", unwindset=UW_OPEN, timeout=1500, cost=3, mem_gb=20)
-H("C07", "vk_fsop", "c07_open_r_create_or_append", desc=_od, bounds="target R, mode create_or_append", unwindset=UW_OPEN, timeout=1500, cost=3, mem_gb=20)
-H("C07", "vk_fsop", "c07_open_d_ro", desc=_od, bounds="target D, mode ro", unwindset=UW_OPEN, timeout=1500, cost=3, mem_gb=20)
-H("C07", "vk_fsop", "c07_open_d_append", tier="thorough", desc=_od, bounds="target D, mode append", unwindset=UW_OPEN, timeout=1500, cost=3, mem_gb=20)
-H("C07", "vk_fsop", "c07_open_d_trunc", tier="thorough", desc=_od, bounds="target D, mode trunc", unwindset=UW_OPEN, timeout=1500, cost=3, mem_gb=20)
-H("C07", "vk_fsop", "c07_open_d_create", tier="thorough", desc=_od, bounds="target D, mode create", unwindset=UW_OPEN, timeout=1500, cost=3, mem_gb=20)
-H("C07", "vk_fsop", "c07_open_d_create_or_trunc", tier="thorough", desc=_od, bounds="target D, mode create_or_trunc", unwindset=UW_OPEN, timeout=1500, cost=3, mem_gb=20)
-H("C07", "vk_fsop", "c07_open_d_create_or_append", tier="thorough", desc=_od, bounds="target D, mode create_or_append", unwindset=UW_OPEN, timeout=1500, cost=3, mem_gb=20)
-H("C07", "vk_fsop", "c07_open_o_ro", tier="thorough", desc=_od, bounds="target O, mode ro", unwindset=UW_OPEN, timeout=1500, cost=3, mem_gb=20)
-H("C07", "vk_fsop", "c07_open_o_append", desc=_od, bounds="target O, mode append", unwindset=UW_OPEN, timeout=1500, cost=3, mem_gb=20)
-H("C07", "vk_fsop", "c07_open_o_trunc", tier="thorough", desc=_od, bounds="target O, mode trunc", unwindset=UW_OPEN, timeout=1500, cost=3, mem_gb=20)
-H("C07", "vk_fsop", "c07_open_o_create", tier="thorough", desc=_od, bounds="target O, mode create", unwindset=UW_OPEN, timeout=1500, cost=3, mem_gb=20)
-H("C07", "vk_fsop", "c07_open_o_create_or_trunc", tier="thorough", desc=_od, bounds="target O, mode create_or_trunc", unwindset=UW_OPEN, timeout=1500, cost=3, mem_gb=20)
-H("C07", "vk_fsop", "c07_open_o_create_or_append", tier="thorough", desc=_od, bounds="target O, mode create_or_append", unwindset=UW_OPEN, timeout=1500, cost=3, mem_gb=20)
-H("C07", "vk_fsop", "c07_open_m_ro", desc=_od, bounds="target M, mode ro", unwindset=UW_OPEN, timeout=1500, cost=3, mem_gb=20)
-H("C07", "vk_fsop", "c07_open_m_append", tier="thorough", desc=_od, bounds="target M, mode append", unwindset=UW_OPEN, timeout=1500, cost=3, mem_gb=20)
-H("C07", "vk_fsop", "c07_open_m_trunc", tier="thorough", desc=_od, bounds="target M, mode trunc", unwindset=UW_OPEN, timeout=3600, cost=3, mem_gb=40)
-H("C07", "vk_fsop", "c07_open_m_create", tier="thorough", desc=_od, bounds="target M, mode create", unwindset=UW_OPEN, timeout=3600, cost=3, mem_gb=40)
-H("C07", "vk_fsop", "c07_open_m_create_or_trunc", tier="thorough", desc=_od, bounds="target M, mode create_or_trunc", unwindset=UW_OPEN, timeout=3600, cost=3, mem_gb=40)
-H("C07", "vk_fsop", "c07_open_m_create_or_append", tier="thorough", desc=_od, bounds="target M, mode create_or_append", unwindset=UW_OPEN, timeout=3600, cost=3, mem_gb=40)
+H("C07", "vk_fsop", "c07_open_a_ro", desc=_od, bounds="target A, mode ro", unwindset=UW_OPEN6, timeout=1500, cost=3, mem_gb=20)
+H("C07", "vk_fsop", "c07_open_a_append", desc=_od, bounds="target A, mode append", unwindset=UW_OPEN6, timeout=1500, cost=3, mem_gb=20)
+H("C07", "vk_fsop", "c07_open_a_trunc", tier="thorough", desc=_od, bounds="target A, mode trunc", unwindset=UW_OPEN6, timeout=3600, cost=3, mem_gb=40)
+H("C07", "vk_fsop", "c07_open_a_create", desc=_od, bounds="target A, mode create", unwindset=UW_OPEN6, timeout=1500, cost=3, mem_gb=20)
+H("C07", "vk_fsop", "c07_open_a_create_or_trunc", tier="thorough", desc=_od, bounds="target A, mode create_or_trunc", unwindset=UW_OPEN6, timeout=3600, cost=3, mem_gb=40)
+H("C07", "vk_fsop", "c07_open_a_create_or_append", desc=_od, bounds="target A, mode create_or_append", unwindset=UW_OPEN6, timeout=1500, cost=3, mem_gb=20)
+H("C07", "vk_fsop", "c07_open_r_ro", desc=_od, bounds="target R, mode ro", unwindset=UW_OPEN6, timeout=1500, cost=3, mem_gb=20)
+H("C07", "vk_fsop", "c07_open_r_append", desc=_od, bounds="target R, mode append", unwindset=UW_OPEN6, timeout=1500, cost=3, mem_gb=20)
+H("C07", "vk_fsop", "c07_open_r_trunc", tier="thorough", desc=_od, bounds="target R, mode trunc", unwindset=UW_OPEN6, timeout=1500, cost=3, mem_gb=20)
+H("C07", "vk_fsop", "c07_open_r_create", tier="thorough", desc=_od, bounds="target R, mode create", unwindset=UW_OPEN6, timeout=1500, cost=3, mem_gb=20)
+H("C07", "vk_fsop", "c07_open_r_create_or_trunc", desc=_od, bounds="target R, mode create_or_trunc", unwindset=UW_OPEN6, timeout=1500, cost=3, mem_gb=20)
+H("C07", "vk_fsop", "c07_open_r_create_or_append", desc=_od, bounds="target R, mode create_or_append", unwindset=UW_OPEN6, timeout=1500, cost=3, mem_gb=20)
+H("C07", "vk_fsop", "c07_open_d_ro", desc=_od, bounds="target D, mode ro", unwindset=UW_OPEN6, timeout=1500, cost=3, mem_gb=20)
+H("C07", "vk_fsop", "c07_open_d_append", tier="thorough", desc=_od, bounds="target D, mode append", unwindset=UW_OPEN6, timeout=1500, cost=3, mem_gb=20)
+H("C07", "vk_fsop", "c07_open_d_trunc", tier="thorough", desc=_od, bounds="target D, mode trunc", unwindset=UW_OPEN6, timeout=1500, cost=3, mem_gb=20)
+H("C07", "vk_fsop", "c07_open_d_create", tier="thorough", desc=_od, bounds="target D, mode create", unwindset=UW_OPEN6, timeout=1500, cost=3, mem_gb=20)
+H("C07", "vk_fsop", "c07_open_d_create_or_trunc", tier="thorough", desc=_od, bounds="target D, mode create_or_trunc", unwindset=UW_OPEN6, timeout=1500, cost=3, mem_gb=20)
+H("C07", "vk_fsop", "c07_open_d_create_or_append", tier="thorough", desc=_od, bounds="target D, mode create_or_append", unwindset=UW_OPEN6, timeout=1500, cost=3, mem_gb=20)
+H("C07", "vk_fsop", "c07_open_o_ro", tier="thorough", desc=_od, bounds="target O, mode ro", unwindset=UW_OPEN6, timeout=1500, cost=3, mem_gb=20)
+H("C07", "vk_fsop", "c07_open_o_append", desc=_od, bounds="target O, mode append", unwindset=UW_OPEN6, timeout=1500, cost=3, mem_gb=20)
+H("C07", "vk_fsop", "c07_open_o_trunc", tier="thorough", desc=_od, bounds="target O, mode trunc", unwindset=UW_OPEN6, timeout=1500, cost=3, mem_gb=20)
+H("C07", "vk_fsop", "c07_open_o_create", tier="thorough", desc=_od, bounds="target O, mode create", unwindset=UW_OPEN6, timeout=1500, cost=3, mem_gb=20)
+H("C07", "vk_fsop", "c07_open_o_create_or_trunc", tier="thorough", desc=_od, bounds="target O, mode create_or_trunc", unwindset=UW_OPEN6, timeout=1500, cost=3, mem_gb=20)
+H("C07", "vk_fsop", "c07_open_o_create_or_append", tier="thorough", desc=_od, bounds="target O, mode create_or_append", unwindset=UW_OPEN6, timeout=1500, cost=3, mem_gb=20)
+H("C07", "vk_fsop", "c07_open_m_ro", desc=_od, bounds="target M, mode ro", unwindset=UW_OPEN6, timeout=1500, cost=3, mem_gb=20)
+H("C07", "vk_fsop", "c07_open_m_append", tier="thorough", desc=_od, bounds="target M, mode append", unwindset=UW_OPEN6, timeout=1500, cost=3, mem_gb=20)
+H("C07", "vk_fsop", "c07_open_m_trunc", tier="thorough", desc=_od, bounds="target M, mode trunc", unwindset=UW_OPEN6, timeout=3600, cost=3, mem_gb=40)
+H("C07", "vk_fsop", "c07_open_m_create", tier="thorough", desc=_od, bounds="target M, mode create", unwindset=UW_OPEN6, timeout=3600, cost=3, mem_gb=40)
+H("C07", "vk_fsop", "c07_open_m_create_or_trunc", tier="thorough", desc=_od, bounds="target M, mode create_or_trunc", unwindset=UW_OPEN6, timeout=3600, cost=3, mem_gb=40)
+H("C07", "vk_fsop", "c07_open_m_create_or_append", tier="thorough", desc=_od, bounds="target M, mode create_or_append", unwindset=UW_OPEN6, timeout=3600, cost=3, mem_gb=40)
 
 H("C06", "vk_fat", "c06_find_subdir16_chain_followed", tier="thorough", desc="FAT16 sub-directory over chain 3->5: lookup follows the chain into the second cluster", bounds="first cluster concrete (16 live entries), second cluster slots 0-3 symbolic, name symbolic", unwindset=UW_DIR, timeout=1500, cost=3, mem_gb=20)
 for n, t in [("c01_locate_first", "quick"), ("c01_locate_third_from_start", "quick"), ("c01_locate_backwards", "quick"), ("c01_locate_from_cache", "thorough"), ("c01_locate_eof_from_start", "quick"), ("c01_locate_eof_from_cache", "quick"), ("c01_locate_eof_backward_chain", "thorough")]:
@@ -393,14 +402,14 @@ for n, t in [("c10_crash_alloc_extend16", "thorough"), ("c10_crash_truncate16", 
     H("C09", "vk_fat", n, tier=t, desc=_cr + "FAT entry, directory entry and data of an unrelated flushed file are unchanged on the medium", bounds="see C10", unwindset=UW_CRASH, timeout=1800, cost=4, mem_gb=24)
 H("C11", "vk_fat", "c11_cache_invalidated_on_failed_read", desc="BlockCache: failed (scribbling) read invalidates the cache tag; next read returns real contents", bounds="2 symbolic blocks", timeout=900, mem_gb=16)
 H("C11", "vk_fat", "c11_find_fault_root16", desc="lookup in the FAT16 root whose device read fails: DeviceError; retried call without fault answers correctly", bounds="16 concrete entries, fault on call 0", unwindset=UW_DIR, timeout=900, cost=2, mem_gb=20)
-for n in ["c11_iterate_fault_dir_block", "c11_iterate_fault_fat_read"]:
-    H("C11", "vk_fat", n, desc="directory lookup / listing with a device read fault at a concrete call index: the fault is reported as DeviceError, never NotFound / a truncated Ok listing", bounds="FAT16 2-cluster sub-directory (32 concrete entries), fault on the directory block / on the FAT read between the clusters", unwindset=UW_DIR, timeout=3000, cost=2, mem_gb=30)
+for n, t in [("c11_iterate_fault_dir_block", "quick"), ("c11_iterate_fault_fat_read", "thorough")]:
+    H("C11", "vk_fat", n, tier=t, desc="directory lookup / listing with a device read fault at a concrete call index: the fault is reported as DeviceError, never NotFound / a truncated Ok listing", bounds="FAT16 2-cluster sub-directory (32 concrete entries), fault on the directory block / on the FAT read between the clusters", unwindset=UW_DIR, timeout=3000, cost=2, mem_gb=30)
 for n in ["c11_find_fault_second_cluster", "c11_iterate_no_fault", "c11_find_fault_dir_block", "c11_find_fault_fat_read"]:
     H("C11", "vk_fat", n, tier="thorough", desc="same, fault on the second cluster / no fault", bounds="same", unwindset=UW_DIR, timeout=900, cost=2, mem_gb=20)
 
-for n in ["c09_crash_create_entry16", "c09_crash_delete_entry16"]:
+for n, t in [("c09_crash_create_entry16", "thorough"), ("c09_crash_delete_entry16", "quick")]:
     for pr in ("C09", "C10"):
-        H(pr, "vk_fat", n, desc=_cr + "creating / deleting another file's entry in the directory block shared with a flushed file: that file's entry, FAT entry and data unchanged on the medium; other slots unchanged", bounds="FAT16 root, flushed file size/data symbolic, k<=3", unwindset=UW_DIR, timeout=1200, cost=3, mem_gb=24)
+        H(pr, "vk_fat", n, tier=t, desc=_cr + "creating / deleting another file's entry in the directory block shared with a flushed file: that file's entry, FAT entry and data unchanged on the medium; other slots unchanged", bounds="FAT16 root, flushed file size/data symbolic, k<=3", unwindset=UW_DIR, timeout=1200, cost=3, mem_gb=24)
 
 # ---------------------------------------------------------------------------
 # final bounds / outside-the-claim texts (see DESIGN.md section 4)
@@ -415,7 +424,7 @@ PROPS["C02"] = dict(
     outside="end-to-end remount by this library and by an independent reader (composed from C15 layout + C06 reader + C01 read, not run); mtime = clock / archive bit after write (harness clock constant); create/mkdir/delete/truncate paths are C03/C07/C10's",
     assumptions=["FAT directory-slot layout = literal offsets in the harness (spec_slot_byte)"])
 PROPS["C03"] = dict(
-    bounds=_geo + "delete_directory_entry on a fully symbolic 16-slot FAT16 root; write_new_directory_entry on a root whose slots 0-3 and 15 are fully symbolic (4-14 live), symbolic name/attributes/clock; chain conditions (old chain is a prefix, new clusters were free, long enough for the size, FAT frame) on the C01 write instances and C05 allocator instances",
+    bounds=_geo + "delete_directory_entry on a fully symbolic 16-slot FAT16 root; write_new_directory_entry on a root whose slots 0-3 and 15 have a symbolic first byte (free / deleted / live), symbolic attributes; chain conditions (old chain is a prefix, new clusters were free, long enough for the size, FAT frame) on the C01 write instances and C05 allocator instances",
     outside="a global WF(pre) => WF(post) over a whole symbolic volume is not encoded (symbolic chain topology makes every block index symbolic); make_dir only for crash behaviour (C10); directory growth; unique names / dot entries",
     assumptions=[])
 PROPS["C04"] = dict(
@@ -445,3 +454,26 @@ PROPS["C16"] = dict(
     bounds="update_fat on a 2-FAT FAT32 volume with both FAT sectors fully symbolic (entry 5; 127 thorough): copies identical afterwards, reserved nibble preserved; update_info_sector with info sector and in-memory record fully symbolic",
     outside="free-count arithmetic of truncate_cluster_chain (thorough, does not finish) and of alloc_cluster (only totality); 'since mount' accounting over histories",
     assumptions=[])
+
+_stubfat = ["-Z", "stubbing"]
+for pr in ("C16", "C10"):
+    H(pr, "vk_fat", "c16_truncate_any_chain_abstract_fat", desc="truncate_cluster_chain over an abstract FAT (next_cluster/update_fat stubbed by a ghost FAT whose contract the FAT-codec harnesses establish): any well-formed chain of 1..4 clusters, any other entries: kept cluster EOC, tail freed, frame, free count += clusters freed, hint sane, and every prefix of the FAT update sequence leaves the chain sound", bounds="FAT of 4 clusters fully symbolic, chain topology symbolic, record symbolic, crash index symbolic", kani_args=_stubfat, timeout=900, cost=2, mem_gb=16)
+
+H("C10", "vk_fat", "c10_alloc_update_order", desc="alloc_cluster(prev): FAT update order (update_fat stubbed + logged): new cluster marked EOC before the tail is linked; every prefix leaves the chain sound", bounds="FAT16 chain 3->2, one free cluster, crash index symbolic", kani_args=_stubfat, unwindset=UW_ALLOC, timeout=900, cost=2, mem_gb=16)
+H("C09", "vk_fat", "c10_alloc_update_order", desc="same harness: a flushed file's chain is never left pointing at a free cluster by a later allocation", bounds="see C10", kani_args=_stubfat, unwindset=UW_ALLOC, timeout=900, cost=2, mem_gb=16)
+
+for pr in ("C13", "C14"):
+    H(pr, "vk_sd", "c13_failed_init_at_cmd58_stays_uninit", desc="identification failing at CMD58 (any non-zero R1): error reported, card stays marked uninitialised", bounds="SDHC, CRC on/off symbolic, R1 error bits symbolic", unwindset=UW_SD, timeout=900, cost=2)
+H("C13", "vk_sd", "c13_read2_crc_mismatch_first_block", tier="thorough", desc="2-block read, CRC on: mismatch in the first block fails the call", bounds="card memory symbolic, any non-zero CRC corruption", unwindset=UW_SD, timeout=3600, cost=5, mem_gb=30)
+for n in ["c14_acmd_waits_for_busy", "c14_command_waits_for_busy"]:
+    H("C14", "vk_sd", n, desc="a command (and the CMD55 prefix of an application command) issued while the card is still busy waits for the busy period to end", bounds="busy 1-2 bytes", unwindset=UW_SD, timeout=900, cost=2)
+
+for n, t in [("c07_delete_open_file_refused", "thorough"), ("c07_delete_directory_refused", "thorough"), ("c07_delete_closed_file", "thorough"), ("c07_delete_missing", "thorough")]:
+    H("C07", "vk_fsop", n, tier=t, desc="delete_file_in_dir: closed file deleted (slot marked, frame); directory -> DeleteDirAsFile; open file (in-memory entry already differs from the medium) -> FileAlreadyOpen; missing -> NotFound; refusals write nothing", bounds="FAT16 root with file / read-only file / directory / open file", unwindset=UW_OPEN6, timeout=1500, cost=3, mem_gb=24)
+H("C09", "vk_fsop", "c07_delete_open_file_refused", tier="thorough", desc="an open (written, unflushed) file cannot be deleted - its slot is not handed to another file whose flushed entry a later close of the stale handle would overwrite", bounds="see C07", unwindset=UW_OPEN6, timeout=1500, cost=3, mem_gb=24)
+H("C09", "vk_fat", "c05_alloc16_a_3e_p2_zero", desc="directory growth (alloc_cluster zero=true) writes only the FAT and the new cluster: the cluster that physically follows it (a flushed file's data) is untouched", bounds="see C05", unwindset=UW_ALLOC, timeout=900, cost=2, mem_gb=16)
+H("C04", "vk_fat", "c05_alloc16_a_3e_p2_zero", desc="alloc_cluster(zero=true) writes only the FAT sector and the new cluster's block", bounds="see C05", unwindset=UW_ALLOC, timeout=900, cost=2, mem_gb=16)
+H("C12", "vk_sd", "c12_command_max_response_delay", desc="a command whose response arrives after the maximum legal delay N_CR = 8 bytes succeeds", bounds="response delay 8", unwindset=[("sdcard/mod.rs", r"^\\s*loop \\{", 12)], timeout=900, cost=2)
+
+for pr in ("C07", "C09"):
+    H(pr, "vk_fsop", "c07_file_is_open_identity", desc="file_is_open == (same volume and same directory slot), whatever the other fields of the on-disk entry: an open, written, unflushed file is still recognised (cannot be opened twice / deleted, its slot is not handed out)", bounds="on-disk entry fully symbolic", timeout=600, cost=1)
